@@ -77,7 +77,7 @@ TWrite ==
           ELSE /\ hist' = AbsPendingAfter(hist, op, a, d)
                /\ seen' = seen + Len(d)
                /\ UNCHANGED <<viol, dirty>>
-               /\ IF hasD /\ ~drifted
+               /\ IF hasD /\ ~drifted /\ (op \in StrOps => Len(a) <= 20000)    \* the code-level prediction is skipped for huge strings
                   THEN LET r == ImplCall([buf |-> buf, sink |-> <<>>], op, a) IN
                        IF r.st.sink = d /\ Avail(r.st.buf) = ev.av /\ r.ret = ev.r
                        THEN buf' = r.st.buf /\ UNCHANGED <<drifted, drift>>
@@ -88,6 +88,7 @@ TWrite ==
                                                             delivered |-> Len(d), want_delivered |-> Len(r.st.sink)])
                                         ELSE drift
                             /\ UNCHANGED buf
+                  ELSE IF hasD /\ ~drifted THEN drifted' = TRUE /\ UNCHANGED <<buf, drift>>
                   ELSE UNCHANGED <<buf, drifted, drift>>
 
 (* "T" rotate_output / "D" destructor: the closed output holds everything appended *)
